@@ -4,11 +4,13 @@ import CarModel.Driver.Ops
 import CarModel.Driver.Read
 import CarModel.Driver.Walk
 import CarModel.Driver.Crash
+import CarModel.Driver.Deferred
 namespace Car.Driver
 
 structure DState where
   tbl : HashTable := []
   sess : Option Sess := none
+  dsess : Option DSess := none
 
 /-- One script line → (new state, "M …" text, "S …" text). Unknown family → `bad-op`. -/
 def step (st : DState) (line : String) : DState × String × String :=
@@ -22,6 +24,11 @@ def step (st : DState) (line : String) : DState × String × String :=
       ({ st with tbl := (KV.nat kv "code", KV.bytes kv "data", KV.bytes kv "digest") :: st.tbl }, "skip", "")
     else if fam == "reset" then ({ tbl := [] }, "skip", "")
     else if fam == "open" then let r := famOpen kv; ({ st with sess := some r.1 }, r.2.1, r.2.2)
+    else if fam == "dopen" then let r := famDOpen kv; ({ st with dsess := some r.1 }, r.2.1, r.2.2)
+    else if ["donput", "dhas", "dput", "dclose"].contains fam then
+      match st.dsess with
+      | none => (st, "bad-op", "")
+      | some se => let r := famDOp se fam kv; ({ st with dsess := some r.1 }, r.2.1, r.2.2)
     else if fam == "reopen" then
       match st.sess with
       | none => (st, "bad-op", "")
